@@ -121,8 +121,11 @@ Definition meth0 (m : string) (r : val) : outcome :=
   | _, _ => Stuck
   end.
 
+(* every case is spelled out so that reducing `bind o k` never copies the term o *)
 Definition bind (o : outcome) (k : val -> outcome) : outcome :=
-  match o with Ret v => k v | other => other end.
+  match o with Ret v => k v | Early v => Early v | Panic => Panic | Ovf => Ovf | Stuck => Stuck end.
+Definition finish (o : outcome) : outcome :=      (* a function body ends: `?` / `return` deliver their value *)
+  match o with Ret v => Ret v | Early v => Ret v | Panic => Panic | Ovf => Ovf | Stuck => Stuck end.
 
 Fixpoint eval (ft : fntab) (fuel : nat) (en : env) (e : expr) {struct fuel} : outcome :=
   match fuel with
@@ -133,10 +136,7 @@ Fixpoint eval (ft : fntab) (fuel : nat) (en : env) (e : expr) {struct fuel} : ou
       match lookup f ft with
       | Some d =>
           if Nat.eqb (List.length (fn_params d)) (List.length args) then
-            match ev (List.app (List.combine (fn_params d) args) en) (fn_body d) with
-            | Early v => Ret v
-            | o => o
-            end
+            finish (ev (List.app (List.combine (fn_params d) args) en) (fn_body d))
           else Stuck
       | None =>
           match f, args with
@@ -231,10 +231,7 @@ Definition FUEL_SEM : nat := 200.
 Definition call_fn (ft : fntab) (consts : env) (f : string) (args : list val) : outcome :=
   match lookup f ft with
   | Some d =>
-      match eval ft FUEL_SEM (List.app (List.combine (fn_params d) args) consts) (fn_body d) with
-      | Early v => Ret v
-      | o => o
-      end
+      finish (eval ft FUEL_SEM (List.app (List.combine (fn_params d) args) consts) (fn_body d))
   | None => Stuck
   end.
 
